@@ -43,6 +43,16 @@ inline Dir lib_direct(int solver, double a, double f, double lat1, double lon1, 
 inline L doc_tol(int solver, double a, double f) {
   return solver_exact(solver) ? tol::geod_exact_doc(a, f) : tol::geod_series_doc(a, f);
 }
+// K x documented accuracy.  K = 2 where the documentation gives a figure for the flattening (|f| <= 0.5 covers the
+// series table and the middle of the b/a table of GeodesicExact.hpp).  That table is labelled "approximate maximum
+// error": thorough-tier searches (2.4e6 cases) found round-off 2.3x (b/a = 79, s12 of a zero-length arc = 0.9 mm on a
+// 5e8 m ellipsoid) and 2.1x (b/a = 0.01) the tabulated figure, so K = 4 beyond |f| = 0.5 and K = 8 where b/a is
+// outside [1/8, 8].  Genuine algorithmic failures are orders of magnitude larger than any of these.
+inline L kfac(double f) {
+  double ba = 1 - f, r = ba > 1 ? ba : 1 / ba;
+  return r > 8 ? 8 : std::fabs(f) > 0.5 ? 4 : 2;
+}
+inline L kdoc(int solver, double a, double f) { return kfac(f) * doc_tol(solver, a, f); }
 inline bool in_domain(int solver, double a, double f) {
   if (!(a > 0) || !std::isfinite(a) || !std::isfinite(f)) return false;
   if (solver_exact(solver)) return (1 - f) >= 0.01 && (1 - f) <= 100;
@@ -72,7 +82,7 @@ inline Pair pointpair(double a, double f) {
     }
     case 2: p.kind = "meridional"; p.lat1 = gg::latitude(); p.lat2 = gg::latitude();
             lon12 = g::oneof<double>({0, 180, -180}); if (g::coin(1, 3)) lon12 = g::ulps(lon12, (int)g::irange(-2, 2)); if (std::fabs(lon12) > 180) lon12 = 180; break;
-    case 3: p.kind = "equatorial"; p.lat1 = g::coin() ? 0.0 : g::sgn() * g::loguni(1e-300, 1e-8); p.lat2 = g::coin() ? 0.0 : g::sgn() * g::loguni(1e-300, 1e-8);
+    case 3: p.kind = "equatorial"; p.lat1 = g::coin() ? 0.0 : g::coin() ? gg::tiny_lat() : g::sgn() * g::loguni(1e-300, 1e-8); p.lat2 = g::coin() ? 0.0 : g::coin(1, 3) ? p.lat1 * g::oneof<double>({1, -1, 0.5, 2}) : g::coin() ? gg::tiny_lat() : g::sgn() * g::loguni(1e-300, 1e-8);
             lon12 = g::coin() ? gg::angle180() : g::sgn() * (180 - g::loguni(1e-12, 10.0)); break;
     case 4: p.kind = "polar"; p.lat1 = g::sgn() * 90; p.lat2 = g::coin() ? gg::latitude() : g::sgn() * (90 - (g::coin() ? 0 : g::loguni(1e-14, 1))); lon12 = gg::angle180();
             if (g::coin()) std::swap(p.lat1, p.lat2); break;
